@@ -158,16 +158,48 @@ theorem search_spans_with_end_anchor (cfg : Config) (hp : PlainPrintCI cfg) (hci
   rw [fmtRegExp_plainCI_eq cfg hp, hci, hns, hne']
   exact this
 
-/-- **C08 with `-r`** (`RepPrint`: `-r`, no class option, case-sensitive, plain printing, one anchor disabled): the returned text is accepted
-and the compiled pattern matches a string in full iff an accepting path of the minimised automaton spells it — whichever anchor is
-disabled (`rep_exact` does not mention the anchors); and with the end anchor in place `Regex::find` returns every non-empty test case whole -/
-theorem search_spans_with_end_anchor_repetitions (cfg : Config) (hp : RepPrint cfg) (hns : cfg.noStart = true) (hne' : cfg.noEnd = false)
+/-- **C08 with `-r`** (`RepPrint`: `-r`, any class options, plain printing, one anchor disabled; case-sensitive here): the returned text is
+accepted and the compiled pattern matches a string in full iff an accepting path of the minimised automaton spells it — whichever anchor
+is disabled (`C05.repetitions_language_exact` does not mention the anchors); and with the end anchor in place `Regex::find` returns
+every non-empty test case whole -/
+theorem search_spans_with_end_anchor_repetitions (cfg : Config) (hp : RepPrint cfg) (hci : cfg.ci = false)
+    (hns : cfg.noStart = true) (hne' : cfg.noEnd = false)
     (env : Env) (ws : List Str) (st : Stages)
     (h : regExpFrom cfg env ws = .ok st) (hseg : ∀ w ∈ ws, SegOK env w)
     (hlen : ∀ w ∈ ws, (clusterOfPieces (env.segOf w)).length ≤ 1000)
     (t : Str) (ht : t ∈ ws) (hne : t ≠ []) :
-    ∃ P, Spec.parse (fmtRegExp cfg st.finalAst) = some (⟨false, false⟩, P) ∧ Spec.find false P t = some (0, t.length) :=
-  rep_find_eol cfg hp hns hne' env ws st h hseg hlen t ht hne
+    ∃ P, Spec.parse (fmtRegExp cfg st.finalAst) = some (⟨false, false⟩, P) ∧ Spec.find false P t = some (0, t.length) := by
+  have hlen : ∀ w ∈ ws, (subPieces (env.segOf w)).length ≤ 1000 := fun w hw => by
+    have := hlen w hw; rwa [clusterOfPieces_eq, List.length_map] at this
+  have hsc : ∀ c ∈ t, Scalar c := by
+    obtain ⟨h1, h2⟩ := hseg t ht
+    intro c hc
+    rw [← h2] at hc
+    obtain ⟨p, hp, hcp⟩ := List.mem_flatten.mp hc
+    exact (h1 p hp).2 c hcp
+  have hst : storedCases cfg env ws = ws := by simp [storedCases, hci]
+  have := rep_find_eol cfg hp hns hne' env ws st h (by rw [hst]; exact hseg) (by rw [hst]; exact hlen) t (by rw [hst]; exact ht) hne t hsc
+  rw [hci] at this
+  apply this
+  have : ∀ u : Str, u.map (convAtom cfg) = u.map (Props.C03.docAtom cfg) :=
+    fun u => List.map_congr_left (fun c _ => Props.C03.convAtom_documented cfg c)
+  rw [this]
+  exact Props.C03.generalises_self cfg t
+
+/-- the same under `-i`: `Regex::find` returns every string that a non-empty stored (lower-cased) test case denotes atom by atom —
+in particular the original test case (`C04.stored_matches_original`) — whole -/
+theorem search_spans_with_end_anchor_repetitions_ci (cfg : Config) (hp : RepPrint cfg)
+    (hns : cfg.noStart = true) (hne' : cfg.noEnd = false)
+    (env : Env) (ws : List Str) (st : Stages)
+    (h : regExpFrom cfg env ws = .ok st) (hseg : ∀ w ∈ storedCases cfg env ws, SegOK env w)
+    (hlen : ∀ w ∈ storedCases cfg env ws, (clusterOfPieces (env.segOf w)).length ≤ 1000)
+    (t : Str) (ht : t ∈ storedCases cfg env ws) (hne : t ≠ []) (s : Str) (hsc : ∀ c ∈ s, Scalar c)
+    (hs : atomsDen cfg.ci (t.map (Props.C03.docAtom cfg)) s) :
+    ∃ P, Spec.parse (fmtRegExp cfg st.finalAst) = some (⟨cfg.ci, false⟩, P) ∧ Spec.find cfg.ci P s = some (0, s.length) := by
+  have : ∀ u : Str, u.map (convAtom cfg) = u.map (Props.C03.docAtom cfg) :=
+    fun u => List.map_congr_left (fun c _ => Props.C03.convAtom_documented cfg c)
+  exact rep_find_eol cfg hp hns hne' env ws st h hseg
+    (fun w hw => by have := hlen w hw; rwa [clusterOfPieces_eq, List.length_map] at this) t ht hne s hsc (by rw [this]; exact hs)
 
 example : PlainPrintCI { noStart := true } := ⟨rfl, rfl, rfl, rfl, rfl⟩
 
